@@ -38,6 +38,9 @@ None == 0
 (*   dfn[i]    0 = no destroy function, d > 0 = destroy function set with user data d     *)
 (*   heap      live allocations <<owner, what>>; owner i = image slot i, 100 + k = the    *)
 (*             glyph-cache entry with key k                                               *)
+(*   cache     whether the glyph cache exists (created and frozen); it is allocation       *)
+(*             <<99, "cache">> and owns one private COPY of every image inserted: the       *)
+(*             argument image of insert is only read, no reference on it is taken or dropped *)
 (*   glyphs    keys present in the glyph cache                                            *)
 (* and the output of the last call:                                                       *)
 (*   ev        micro events in program order  M/F (malloc/free), R/U (ref/unref with the  *)
@@ -55,7 +58,7 @@ GOwner(k) == 100 + k
 LifeInit ==
     [kind |-> [i \in Img |-> "free"], refs |-> [i \in Img |-> 0], held |-> [i \in Img |-> 0],
      amap |-> [i \in Img |-> None], stale |-> [i \in Img |-> FALSE], dfn |-> [i \in Img |-> 0],
-     heap |-> {}, glyphs |-> {},
+     heap |-> {}, glyphs |-> {}, cache |-> FALSE,
      ev |-> <<>>, ret |-> FALSE, died |-> <<>>, err |-> "", dev |-> ""]
 
 Alive(S, i)   == S.kind[i] # "free"
@@ -162,11 +165,27 @@ GInsertS(S0, k, i) ==             \* the cache stores a copy; the argument image
     LET S  == IF S0.amap[i] # None THEN Touch(Touch(S0, i), S0.amap[i]) ELSE Touch(S0, i)
         S1 == Alloc(Alloc(Alloc(S, GOwner(k), "glyph"), GOwner(k), "struct"), GOwner(k), "bits")
     IN [S1 EXCEPT !.glyphs = @ \cup {k}]
-GRemoveS(S, k) ==
-    IF k \notin S.glyphs THEN S
-    ELSE LET S1 == IF "glyph_leak" \in Bugs THEN S       \* free_glyph forgets pixman_image_unref
-                   ELSE Free(Emit(Free(S, GOwner(k), "bits"), Ev("U", 0, 0, 1)), GOwner(k), "struct")
-         IN [Free(S1, GOwner(k), "glyph") EXCEPT !.glyphs = @ \ {k}]
+GDrop(S, k) ==                    \* free_glyph: the copy is unreferenced (and released), then the entry
+    LET S1 == IF "glyph_leak" \in Bugs THEN S       \* free_glyph forgets pixman_image_unref
+              ELSE Free(Emit(Free(S, GOwner(k), "bits"), Ev("U", 0, 0, 1)), GOwner(k), "struct")
+    IN [Free(S1, GOwner(k), "glyph") EXCEPT !.glyphs = @ \ {k}]
+GRemoveS(S, k) == IF k \notin S.glyphs THEN S ELSE GDrop(S, k)
+RECURSIVE GDropAll(_, _)
+GDropAll(S, ks) == IF ks = {} THEN S
+                   ELSE LET k == CHOOSE x \in ks : \A y \in ks : x <= y IN GDropAll(GDrop(S, k), ks \ {k})
+COwner == 99
+GCreateS(S) == [Alloc(S, COwner, "cache") EXCEPT !.cache = TRUE]       \* create + freeze
+(* thaw (+ freeze again): when the table is fuller than its high-water mark the least recently used glyphs *)
+(* are evicted.  Which ones is property C17's business; here any subset may go, each completely.          *)
+GThawSucc(S) == {GDropAll(S, E) : E \in SUBSET S.glyphs}
+GDestroyS(S) ==                   \* thaw + destroy: every copy and the cache itself are released
+    LET S1 == GDropAll(S, IF "cache_destroy_leaks_glyphs" \in Bugs THEN {} ELSE S.glyphs) IN
+    [Free(S1, COwner, "cache") EXCEPT !.cache = FALSE, !.glyphs = {}]
+(* an insert whose private copy cannot be made (an image too wide to allocate): the entry allocated for it *)
+(* is released again, NULL is returned and the cache is as before                                         *)
+GBadInsertS(S, k) ==
+    IF "bad_insert_keeps_entry" \in Bugs THEN Alloc(S, GOwner(k), "glyph")
+    ELSE Free(Alloc(S, GOwner(k), "glyph"), GOwner(k), "glyph")
 UseS(S, i) == IF S.amap[i] # None THEN Touch(Touch(S, i), S.amap[i]) ELSE Touch(S, i)
 
 (* An API call is [op, i, j, v]:  i the image (or 0), j a second image / glyph key (or 0), v a small integer *)
@@ -185,6 +204,12 @@ LifeStep(S0, c) ==
       [] c.op = "use"       -> {UseS(S, i)}
       [] c.op = "ginsert"   -> {GInsertS(S, c.j, i)}
       [] c.op = "gremove"   -> {GRemoveS(S, c.j)}
+      [] c.op = "gcreate"   -> {GCreateS(S)}
+      [] c.op = "gdestroy"  -> {GDestroyS(S)}
+      [] c.op = "gthaw"     -> GThawSucc(S)
+      [] c.op = "gbad"      -> {GBadInsertS(S, c.j)}
+      [] c.op = "glookup"   -> {[S EXCEPT !.ret = (c.j \in S.glyphs)]}
+      [] c.op = "gcomp"     -> {S}          \* composite_glyphs (v = 0) / _no_mask (v = 1) with every present glyph
 
 (* the calls a client may make in state S (it never passes a pointer to a released image and only *)
 (* drops references it owns)                                                                      *)
@@ -199,13 +224,18 @@ LifeCalls(S) ==
     \cup {Call("clip", i, 0, v) : i \in A, v \in 0..2}
     \cup {Call("destroyfn", i, 0, v) : i \in A, v \in 0..2}
     \cup {Call("use", i, 0, 0) : i \in A}
-    \cup {Call("ginsert", i, k, 0) : i \in {x \in A : IsBits(S.kind[x])}, k \in GKeys \ S.glyphs}
-    \cup {Call("gremove", 0, k, 0) : k \in GKeys}
+    \cup (IF ~S.cache THEN {Call("gcreate", 0, 0, 0)}
+          ELSE      {Call("ginsert", i, k, 0) : i \in {x \in A : IsBits(S.kind[x])}, k \in GKeys \ S.glyphs}
+               \cup {Call("gbad", 0, k, 0) : k \in GKeys \ S.glyphs}
+               \cup {Call("gremove", 0, k, 0) : k \in GKeys}
+               \cup {Call("glookup", 0, k, 0) : k \in GKeys}
+               \cup {Call("gcomp", 0, 0, v) : v \in 0..1}
+               \cup {Call("gthaw", 0, 0, 0), Call("gdestroy", 0, 0, 0)})
 
 (* the call whose outcome the statement leaves open (see MayRefuse) *)
 Ambiguous(S, c) == c.op = "alpha" /\ ~MustRefuse(S, c.i, c.j) /\ MayRefuse(S, c.i, c.j)
 
-Quiescent(S) == (\A i \in Img : S.held[i] = 0) /\ S.glyphs = {}
+Quiescent(S) == (\A i \in Img : S.held[i] = 0) /\ ~S.cache
 
 (* ---- what C20 states, as state predicates ---- *)
 RefsAccounted(S) ==     \* every reference has an owner: the client or an image the map is attached to
@@ -221,6 +251,8 @@ OwnedShape(S)     == /\ \A i \in Img : Alive(S, i) =>
                            /\ Owns(S, i, "bits") <=> S.kind[i] = "bits"
                            /\ Owns(S, i, "stops") <=> IsGrad(S.kind[i])
                      /\ \A k \in GKeys : (k \in S.glyphs) <=> OwnedBy(S, GOwner(k)) # {}
+                     /\ S.cache <=> Owns(S, COwner, "cache")
+                     /\ S.glyphs # {} => S.cache
 NothingLeftBehind(S) == Quiescent(S) => S.heap = {} /\ \A i \in Img : ~Alive(S, i)
 
 (* the output of one call *)
@@ -236,11 +268,12 @@ CallbackBeforeFrees(S) ==
        \A m \in EvPos(S, LAMBDA e : e.k = "F") : S.ev[m].a = S.ev[n].a => n < m
 ReleasedCompletely(S) == \A i \in DiedSet(S) : OwnedBy(S, i) = {}
 UnrefReturn(S, c) ==    \* c: the call that led to S
-    S.ret <=> (c.op = "unref" /\ c.i \in DiedSet(S))
+    IF c.op = "glookup" THEN TRUE ELSE S.ret <=> (c.op = "unref" /\ c.i \in DiedSet(S))
 FreesOnlyOf(S, c) ==    \* a call frees only what the image it is applied to, or an image it releases, owns
     \A m \in EvPos(S, LAMBDA e : e.k = "F") :
        S.ev[m].a \in DiedSet(S) \cup (IF c.op \in {"transform", "filter", "clip"} THEN {c.i} ELSE {})
-                              \cup (IF c.op = "gremove" THEN {GOwner(c.j)} ELSE {})
+                              \cup (IF c.op \in {"gremove", "gbad"} THEN {GOwner(c.j)} ELSE {})
+                              \cup (IF c.op \in {"gthaw", "gdestroy"} THEN {GOwner(k) : k \in GKeys} \cup {COwner} ELSE {})
 
 LifeStateOK(S) ==
     /\ NoMemoryError(S) /\ RefsAccounted(S) /\ AliveIffRefs(S) /\ AliveIffStruct(S)
